@@ -105,7 +105,23 @@ pub fn main(table: &[GrammarEntry]) {
         });
     }
     // user functions may run a nested parse: any rule of any grammar of this crate
-    let _ = crate::NESTED_TARGETS.set(table.iter().flat_map(|g| g.rules.iter().map(|r| r.parse)).take(64).collect());
+    // (only rules on which the reference evaluation of every nested text terminates quickly: a stack overflow of a
+    // nested parse could not be caught)
+    let mut nested: Vec<fn(&str, u8, u64) -> crate::Raw> = vec![];
+    for g in table.iter() {
+        if let Some(ctx) = by_id.get(g.id).and_then(|me| GCtx::new(g.id, &me.text, &me.spec).ok()) {
+            for r in g.rules.iter() {
+                let safe = crate::NESTED_TEXTS.iter().all(|t| {
+                    let o = verif_core::interp::run(&ctx.model, &ctx.shapes, r.rule, t, verif_core::interp::Cfg { fuel: 5_000, ..Default::default() });
+                    !o.diverged
+                });
+                if safe && nested.len() < 64 {
+                    nested.push(r.parse);
+                }
+            }
+        }
+    }
+    let _ = crate::NESTED_TARGETS.set(nested);
     // entries: leak a static copy of the table description so the worker thread can own it
     let table_ref: &'static [GrammarEntry] = unsafe_static(table);
     let args = Arc::new(args);
@@ -160,6 +176,11 @@ pub struct CaseRunner<'a> {
 
 fn begin_case(current: &Arc<Mutex<Option<serde_json::Value>>>, gid: &str, rule: &str, input: &str) {
     *current.lock().unwrap() = Some(json!({"grammar": gid, "rule": rule, "input": input}));
+    // harness debugging: VERIF_MARK=<file> keeps the case in flight on disk (a process killed by a stack overflow cannot
+    // report it any more)
+    if let Ok(p) = std::env::var("VERIF_MARK") {
+        let _ = std::fs::write(p, serde_json::to_string(&json!({"grammar": gid, "rule": rule, "input": input})).unwrap());
+    }
     CASE_STARTED_MS.store(now_ms(), Ordering::Relaxed);
     CASE_SEQ.fetch_add(1, Ordering::Relaxed);
 }
